@@ -247,9 +247,27 @@ class Gen:
         if x < 0.5 and not neutral_only:
             self.features.add('dir:installed-tests')
             return o['datadir'] + '/installed-tests/t' + str(self.u())
+        if x < 0.6 and not neutral_only:
+            self.features.add('dir:libdir')
+            return r.choice([o['libdir'], o['libdir'] + '/pkgconfig', o['libdir'] + '/plug ins ' + str(self.u())])
         self.features.add('dir:relative')
         return r.choice([o['datadir'] + '/d' + str(self.u()), o['datadir'] + '/pkg/dä ta', 'etc', 'var/lib/p' + str(self.u()),
                          o['datadir'], 'libexec/x y', o['datadir'] + '/doc/p'])
+
+    def in_libdir(self, idir: T.Optional[str]) -> bool:
+        if idir is None or idir.startswith('/'):
+            return False
+        lib = self.opts['libdir']
+        return idir == lib or idir.startswith(lib + '/')
+
+    def ext_for(self, idir: T.Optional[str], usual: T.Sequence[str]) -> str:
+        """File suffix for something installed into `idir`: below libdir the suffix decides the default tag
+        (Installing.md: .a/.pc devel, .so/.dll runtime, anything else untagged), so all of them are drawn there."""
+        if self.in_libdir(idir):
+            e = self.rng.choice(['.pc', '.a', '.so', '.dll', '.pc', '.txt', ''])
+            self.features.add('libdir:suffix:' + (e or 'none'))
+            return e
+        return self.rng.choice(list(usual))
 
     def collides(self, lp: str) -> bool:
         """Destinations are kept disjoint: no leaf (file, symlink, empty dir, installed tree member) of one rule is
@@ -288,9 +306,10 @@ class Gen:
         symlink_src = r.random() < 0.2
         follow: T.Optional[bool] = None
         srcs: T.List[str] = []
+        idir: T.Optional[str] = None if r.random() < 0.25 else self.pick_dir()
         for i in range(k):
             nested = preserve and r.random() < 0.7
-            rel = (self.dname('pd') + '/' if nested else '') + self.name('dat', r.choice(['.txt', '.dat', '', '.sh', '.cfg']))
+            rel = (self.dname('pd') + '/' if nested else '') + self.name('dat', self.ext_for(idir, ['.txt', '.dat', '', '.sh', '.cfg']))
             if nested and r.random() < 0.4:
                 rel = self.dname('pq') + '/' + rel
             if symlink_src and i == 0:
@@ -309,11 +328,10 @@ class Gen:
             else:
                 self.add_file(posixpath.join(sd, rel))
             srcs.append(rel)
-        idir: T.Optional[str] = None if r.random() < 0.25 else self.pick_dir()
         base = idir if idir is not None else posixpath.join(self.opts['datadir'], pn)
         renames: T.Optional[T.List[str]] = None
         if use_rename:
-            renames = [(self.dname('rn') + '/' if r.random() < 0.3 else '') + self.name('renamed', r.choice(['.txt', '', '.x'])) for _ in srcs]
+            renames = [(self.dname('rn') + '/' if r.random() < 0.3 else '') + self.name('renamed', self.ext_for(idir, ['.txt', '', '.x'])) for _ in srcs]
             self.features.add('data:rename')
         mexpr, m = self.pick_mode()
         tag = self.pick_tag()
@@ -608,8 +626,8 @@ class Gen:
     def rule_configure(self, sd: str, sub: str, pn: str) -> T.Optional[str]:
         r = self.rng
         ri = len(self.rules)
-        out = self.name('conf', r.choice(['.h', '.ini', '.cfg']), safe=True)
         idir = self.pick_dir()
+        out = self.name('conf', self.ext_for(idir, ['.h', '.ini', '.cfg']), safe=True)
         mexpr, m = self.pick_mode()
         tag = self.pick_tag()
         dest = posixpath.join(idir, out)
@@ -629,16 +647,16 @@ class Gen:
         r = self.rng
         ri = len(self.rules)
         n = r.randint(1, 3)
-        outs = [self.name('gen', r.choice(['.txt', '.dat', '.bin']), safe=True) for _ in range(n)]
         make_x = r.random() < 0.3
         per_output = n > 1 and r.random() < 0.6
         if per_output:
-            idirs: T.List[T.Union[str, bool]] = [self.pick_dir() if r.random() < 0.7 else False for _ in outs]
+            idirs: T.List[T.Union[str, bool]] = [self.pick_dir() if r.random() < 0.7 else False for _ in range(n)]
             if all(d is False for d in idirs):
                 idirs[0] = self.pick_dir()
             self.features.add('custom:install_dir-list' + ('+false' if False in idirs else ''))
         else:
             idirs = [self.pick_dir()] * n
+        outs = [self.name('gen', self.ext_for(d if isinstance(d, str) else None, ['.txt', '.dat', '.bin']), safe=True) for d in idirs]
         mexpr, m = self.pick_mode()
         tags: T.Optional[T.List[T.Optional[str]]] = None
         single_tag = False
@@ -988,10 +1006,16 @@ def directed_probes() -> T.List[dict]:
         "install_data('e.txt', install_dir: 'bin')",
         "install_emptydir('var/b1 empty', install_mode: 'rwxrwx---')",
         "install_subdir('t', install_dir: 'share/b1t', exclude_directories: ['x'], exclude_files: ['skip.txt'])",
+        "install_data('hand.pc', install_dir: 'lib/pkgconfig')",
+        "install_data('libarch.a', 'notes.txt', install_dir: 'lib')",
+        "install_data('libplug.so', install_dir: 'lib/b1 plugins')",
+        "install_data('d.txt', 'hand.pc', rename: ['from-txt.pc', 'from-pc.txt'], install_dir: 'lib/b1 ren')",
+        "configure_file(output: 'gen.pc', configuration: {'V': 1}, install: true, install_dir: 'lib/pkgconfig')",
         "subproject('sp')",
     ]
     fl = {'p.1': f('p\n'), 'h.h': f('h\n'), 'd.txt': f('d\n'), 'e.txt': f('e\n'), 't/keep.txt': f('k\n'), 't/skip.txt': f('s\n'),
           't/x/no.txt': f('n\n'), 't/y/yes.txt': f('y\n'),
+          'hand.pc': f('Name: hand\n'), 'libarch.a': f('!<arch>\n'), 'notes.txt': f('n\n'), 'libplug.so': f('so\n'),
           'subprojects/sp/meson.build': f("project('sp')\ninstall_data('s.txt', install_dir: 'share/b1sp', install_tag: 'man')\n"),
           'subprojects/sp/s.txt': f('s\n')}
     L = lambda name, tgt, d='share/ln': {'path': f'/usr/{d}/{name}', 'type': 'symlink', 'target': tgt, 'kind': 'symlink', 'rule': 0}  # noqa: E731
@@ -1005,9 +1029,18 @@ def directed_probes() -> T.List[dict]:
            {'path': '/usr/share/b1t/t/keep.txt', 'src': 't/keep.txt', 'kind': 'subdir'},
            {'path': '/usr/share/b1t/t/y', 'type': 'dir', 'kind': 'subdir', 'mode': 0o755},
            {'path': '/usr/share/b1t/t/y/yes.txt', 'src': 't/y/yes.txt', 'kind': 'subdir'},
-           {'path': '/usr/share/b1sp/s.txt', 'src': 'subprojects/sp/s.txt', 'subproject': 'sp', 'tag': 'man'}]
+           {'path': '/usr/share/b1sp/s.txt', 'src': 'subprojects/sp/s.txt', 'subproject': 'sp', 'tag': 'man'},
+           # Installing.md: files installed into libdir with .a/.pc are devel, with .so/.dll runtime, others untagged;
+           # the installed (renamed) name decides
+           {'path': '/usr/lib/pkgconfig/hand.pc', 'src': 'hand.pc', 'tag': 'devel'},
+           {'path': '/usr/lib/libarch.a', 'src': 'libarch.a', 'tag': 'devel'},
+           {'path': '/usr/lib/notes.txt', 'src': 'notes.txt', 'tag': None},
+           {'path': '/usr/lib/b1 plugins/libplug.so', 'src': 'libplug.so', 'tag': 'runtime'},
+           {'path': '/usr/lib/b1 ren/from-txt.pc', 'src': 'd.txt', 'tag': 'devel'},
+           {'path': '/usr/lib/b1 ren/from-pc.txt', 'src': 'hand.pc', 'tag': None},
+           {'path': '/usr/lib/pkgconfig/gen.pc', 'src': 'build:gen.pc', 'kind': 'configure', 'tag': 'devel'}]
     b1 = base('baseline', stm, fl, ent, {'kind': 'baseline', 'sub': ''})
-    b1['histories'] = ['fresh', 'tags=man', 'tags=runtime,devel', 'skip=sp', 'repeat']
+    b1['histories'] = ['fresh', 'tags=man', 'tags=runtime,devel', 'tags=devel', 'tags=runtime', 'skip=sp', 'repeat']
     b1['tags'] = ['devel', 'man', 'runtime']
     b1['has_subproject'] = True
     probes.append(b1)
